@@ -139,6 +139,16 @@ pub fn main(args: &Args) -> i32 {
     let mut push1 = |b: &mut Batcher, label: String, ev: J, raw: serde_json::Value| {
         b.push_run(&label, vec![ev], raw);
     };
+    // a panic in the code under test is data: it becomes an event no specification action accepts
+    fn guarded(f: impl FnOnce() -> J) -> J {
+        match std::panic::catch_unwind(std::panic::AssertUnwindSafe(f)) {
+            Ok(j) => j,
+            Err(p) => {
+                let msg = p.downcast_ref::<String>().cloned().or_else(|| p.downcast_ref::<&str>().map(|s| s.to_string())).unwrap_or_else(|| "panic".into());
+                J::O(vec![("e", js("panic")), ("msg", js(&msg))])
+            }
+        }
+    }
     if mode == "codec" {
         // all 256 opcode bytes
         for byte in 0..=255u8 {
@@ -156,7 +166,7 @@ pub fn main(args: &Args) -> i32 {
         // all byte pairs (and single bytes)
         for a in 0..=255u8 {
             if mine(&mut n) {
-                push1(&mut b, format!("b1/{a}"), bytes_event(&[a]), json!({"bytes": [a]}));
+                push1(&mut b, format!("b1/{a}"), guarded(|| bytes_event(&[a])), json!({"bytes": [a]}));
             }
             for c in 0..=255u8 {
                 if !mine(&mut n) {
@@ -165,7 +175,7 @@ pub fn main(args: &Args) -> i32 {
                 if !args.thorough && (a as u32 * 256 + c as u32) % 4 != 0 && !(all.iter().any(|o| o.to_bytes().into_iter().next() == Some(a))) {
                     continue;
                 }
-                push1(&mut b, format!("b2/{a}/{c}"), bytes_event(&[a, c]), json!({"bytes": [a, c]}));
+                push1(&mut b, format!("b2/{a}/{c}"), guarded(|| bytes_event(&[a, c])), json!({"bytes": [a, c]}));
             }
         }
         // all op pairs
@@ -177,7 +187,7 @@ pub fn main(args: &Args) -> i32 {
                     continue;
                 }
                 let v = [*x, *y];
-                push1(&mut b, format!("op2/{}/{}", ops::name(x), ops::name(y)), ops_event(&v), json!({"ops": [ops::name(x), ops::name(y)]}));
+                push1(&mut b, format!("op2/{}/{}", ops::name(x), ops::name(y)), guarded(|| ops_event(&v)), json!({"ops": [ops::name(x), ops::name(y)]}));
             }
         }
         // immediates: walking one / zero, boundaries, every opcode byte at every position
@@ -203,12 +213,12 @@ pub fn main(args: &Args) -> i32 {
                 continue;
             }
             let v = [ops::push(*w), all[i % all.len()]];
-            push1(&mut b, format!("imm/{i}"), ops_event(&v), json!({"push": w}));
+            push1(&mut b, format!("imm/{i}"), guarded(|| ops_event(&v)), json!({"push": w}));
             let bytes: Vec<u8> = asm::to_bytes(v.iter().copied()).collect();
-            push1(&mut b, format!("immb/{i}"), bytes_event(&bytes), json!({"bytes": bytes}));
+            push1(&mut b, format!("immb/{i}"), guarded(|| bytes_event(&bytes)), json!({"bytes": bytes}));
             // every truncation point
             for cut in 0..bytes.len() {
-                push1(&mut b, format!("immt/{i}/{cut}"), bytes_event(&bytes[..cut]), json!({"bytes": &bytes[..cut]}));
+                push1(&mut b, format!("immt/{i}/{cut}"), guarded(|| bytes_event(&bytes[..cut])), json!({"bytes": &bytes[..cut]}));
             }
         }
         // random op sequences and random / mutated byte strings
@@ -218,7 +228,7 @@ pub fn main(args: &Args) -> i32 {
             let v: Vec<Op> = (0..len)
                 .map(|_| if rng.gen_range(0..4) == 0 { ops::push(rng.gen()) } else { all[rng.gen_range(0..all.len())] })
                 .collect();
-            push1(&mut b, format!("rops/{}/{i}", args.shard.0), ops_event(&v), json!({"ops": v.iter().map(ops::name).collect::<Vec<_>>()}));
+            push1(&mut b, format!("rops/{}/{i}", args.shard.0), guarded(|| ops_event(&v)), json!({"ops": v.iter().map(ops::name).collect::<Vec<_>>()}));
             let mut bytes: Vec<u8> = asm::to_bytes(v.iter().copied()).collect();
             match rng.gen_range(0..4) {
                 0 if !bytes.is_empty() => {
@@ -235,9 +245,9 @@ pub fn main(args: &Args) -> i32 {
                 }
                 _ => {}
             }
-            push1(&mut b, format!("rbytes/{}/{i}", args.shard.0), bytes_event(&bytes), json!({"bytes": bytes}));
+            push1(&mut b, format!("rbytes/{}/{i}", args.shard.0), guarded(|| bytes_event(&bytes)), json!({"bytes": bytes}));
             let rb: Vec<u8> = (0..rng.gen_range(0..24)).map(|_| rng.gen()).collect();
-            push1(&mut b, format!("rand/{}/{i}", args.shard.0), bytes_event(&rb), json!({"bytes": rb}));
+            push1(&mut b, format!("rand/{}/{i}", args.shard.0), guarded(|| bytes_event(&rb)), json!({"bytes": rb}));
         }
     } else {
         // effects: programs of <= 2 ops over all ops and pushes whose immediates carry an effectful
@@ -256,7 +266,7 @@ pub fn main(args: &Args) -> i32 {
             if mine(&mut n) {
                 let v = [*x];
                 let bytes: Vec<u8> = asm::to_bytes(v.iter().copied()).collect();
-                push1(&mut b, format!("e1/{}", ops::name(x)), scan_event(&bytes, Some(&v)), json!({"ops": [ops::name(x)]}));
+                push1(&mut b, format!("e1/{}", ops::name(x)), guarded(|| scan_event(&bytes, Some(&v))), json!({"ops": [ops::name(x)]}));
             }
             for y in &alpha {
                 if !mine(&mut n) {
@@ -264,7 +274,7 @@ pub fn main(args: &Args) -> i32 {
                 }
                 let v = [*x, *y];
                 let bytes: Vec<u8> = asm::to_bytes(v.iter().copied()).collect();
-                push1(&mut b, format!("e2/{}/{}", ops::name(x), ops::name(y)), scan_event(&bytes, Some(&v)), json!({"bytes": bytes}));
+                push1(&mut b, format!("e2/{}/{}", ops::name(x), ops::name(y)), guarded(|| scan_event(&bytes, Some(&v))), json!({"bytes": bytes}));
             }
         }
         let count = if args.thorough { 20000 } else { 2000 } / args.shard.1.max(1);
@@ -272,7 +282,7 @@ pub fn main(args: &Args) -> i32 {
             let len = rng.gen_range(0..12);
             let v: Vec<Op> = (0..len).map(|_| alpha[rng.gen_range(0..alpha.len())]).collect();
             let bytes: Vec<u8> = asm::to_bytes(v.iter().copied()).collect();
-            push1(&mut b, format!("er/{}/{i}", args.shard.0), scan_event(&bytes, Some(&v)), json!({"bytes": bytes}));
+            push1(&mut b, format!("er/{}/{i}", args.shard.0), guarded(|| scan_event(&bytes, Some(&v))), json!({"bytes": bytes}));
         }
     }
     b.finish(json!({"driver": "bytecode", "mode": mode}))
